@@ -8,7 +8,7 @@ from cases import *
 import c03 as _c03
 
 E = {"s": 9, "ms": 6, "us": 3, "ns": 0}
-PERIODS = [(1, "s"), (1, "s"), (500, "ms"), (1000, "ms"), (2, "ms"), (250, "us"), (1, "ms"), (2, "s"), (100, "ms")]
+PERIODS = [(1, "s"), (1, "s"), (500, "ms"), (1000, "ms"), (2, "ms"), (250, "us"), (1, "ms"), (2, "s"), (100, "ms"), (4100, "ms"), (67, "ms")]
 
 
 def lit_text(rng, f):
@@ -163,9 +163,9 @@ def main():
                        units={"def": default, "pnum": pn2, "pden": 1, "punit": pu2}, unit=default, set_period=[pn2, pu2, 0.1], styles=styles,
                        consts=cdecl)
             if pu2 != "ns" and rng.random() < 0.3:
-                # the period in the next larger unit as a float: 500 ms = 0.5 s (exact in binary when it is a multiple of 1/8)
+                # the period in the next larger unit as a float: 500 ms = 0.5 s, 4100 ms = 4.1 s (not exact in binary)
                 big = {"ms": "s", "us": "ms"}.get(pu2)
-                if big and (pn2 * 8) % 1000 == 0:
+                if big:
                     o["set_period"] = [pn2 / 1000.0, big, 0.1]
             elif rng.random() < 0.2:
                 o["period_as_float"] = True          # 2 -> 2.0
